@@ -29,9 +29,7 @@ use scylla::cluster::metadata::Strategy;
 use scylla::cluster::{ClusterState, Node};
 use scylla::frame::response::result::TableSpec;
 use scylla::routing::Token;
-use scylla::verif_hooks::cluster::{
-    KeyspaceSpec, NodeSpec, cluster_from_topology_with_tablets_and_views, cluster_refresh_topology, cluster_refresh_with_views,
-};
+use scylla::verif_hooks::cluster::{KeyspaceSpec, NodeSpec, cluster_refresh_topology, cluster_refresh_topology_accepting, cluster_state_general};
 use scylla::verif_hooks::tablets::{TabletView, VerifTablets, raw_tablet_from_payload};
 use std::sync::Arc;
 use std::collections::HashMap;
@@ -810,6 +808,8 @@ enum CsSchema {
     Absent,
     NotTablet,
     Tablet(Vec<String>, Vec<String>),
+    /// the fetch of `k0` failed (only as the argument of a refresh; resolved against the previous schema)
+    FetchFailed,
 }
 
 fn parse_cs_schema(s: Option<&str>) -> Option<CsSchema> {
@@ -817,6 +817,7 @@ fn parse_cs_schema(s: Option<&str>) -> Option<CsSchema> {
         None => Some(CsSchema::Tablet(vec!["t0".into(), "t1".into()], vec![])),
         Some("x") => Some(CsSchema::Absent),
         Some("-") => Some(CsSchema::NotTablet),
+        Some("e") => Some(CsSchema::FetchFailed),
         Some(cfg) => {
             let (t, v) = cfg.split_once('/')?;
             if v.contains('/') {
@@ -833,6 +834,8 @@ fn parse_cs_schema(s: Option<&str>) -> Option<CsSchema> {
 }
 
 struct CsRunner {
+    /// the host filter accepts every peer and the nodes are enabled (`csa` cases)
+    accepting: bool,
     cs: Option<ClusterState>,
     peers: Vec<CsPeer>,
     schema: CsSchema,
@@ -860,7 +863,7 @@ impl CsRunner {
         let mut tt = HashMap::new();
         let mut tv = HashMap::new();
         match schema {
-            CsSchema::Absent => {}
+            CsSchema::Absent | CsSchema::FetchFailed => {}
             CsSchema::NotTablet => ks.push(KeyspaceSpec { name: "k0".to_owned(), strategy: Strategy::SimpleStrategy { replication_factor: 1 } }),
             CsSchema::Tablet(t, v) => {
                 ks.push(KeyspaceSpec { name: "k0".to_owned(), strategy: Strategy::SimpleStrategy { replication_factor: 1 } });
@@ -882,6 +885,10 @@ impl CsRunner {
     /// one refresh (`topology_only`: `new_with_updated_topology`, the schema stays); output: node objects kept, table sizes
     fn refresh(&mut self, peers: Vec<CsPeer>, schema: CsSchema, topology_only: bool, ctx: &mut Ctx) -> String {
         let (nodes, ks, tt, tv) = Self::specs(&peers, &schema);
+        let failed: Vec<String> = if schema == CsSchema::FetchFailed { vec!["k0".to_owned()] } else { vec![] };
+        // a keyspace whose fetch failed keeps its previous version; without one it is absent until the next refresh
+        let schema = if schema == CsSchema::FetchFailed { self.schema.clone() } else { schema };
+        let accepting = self.accepting;
         let before: Vec<(u32, Arc<Node>)> = match &self.cs {
             None => vec![],
             Some(cs) => self.peers.iter().filter_map(|p| cs.get_node_by_host_id(uuid_of(p.id)).map(|n| (p.id, Arc::clone(n)))).collect(),
@@ -889,9 +896,9 @@ impl CsRunner {
         let new_cs = RT.with(|rt| {
             rt.block_on(async {
                 match &self.cs {
-                    None => cluster_from_topology_with_tablets_and_views(&nodes, &ks, &tt, &tv).await,
+                    Some(prev) if topology_only && accepting => cluster_refresh_topology_accepting(prev, &nodes).await,
                     Some(prev) if topology_only => cluster_refresh_topology(prev, &nodes).await,
-                    Some(prev) => cluster_refresh_with_views(prev, &nodes, &ks, &tt, &tv).await,
+                    prev => cluster_state_general(prev.as_ref(), &nodes, &ks, &tt, &tv, &failed, accepting).await,
                 }
             })
         });
@@ -1119,8 +1126,9 @@ impl CsRunner {
     }
 }
 
-fn run_cs(ops: &str, ctx: &mut Ctx) -> String {
+fn run_cs(ops: &str, accepting: bool, ctx: &mut Ctx) -> String {
     let mut r = CsRunner {
+        accepting,
         cs: None,
         peers: vec![],
         schema: CsSchema::Absent,
@@ -1142,7 +1150,8 @@ pub fn run(case: &str, ctx: &mut Ctx) -> String {
     let w: Vec<&str> = case.split_whitespace().collect();
     match w.as_slice() {
         ["tab", ops] => run_tab(ops, ctx),
-        ["cs", ops] => run_cs(ops, ctx),
+        ["cs", ops] => run_cs(ops, false, ctx),
+        ["csa", ops] => run_cs(ops, true, ctx),
         ["payload", arg] => run_payload(arg, ctx),
         ["exh", alpha, depth, pre] => run_exh(alpha, depth, pre, ctx),
         _ => "bad-case".to_owned(),
@@ -1654,7 +1663,7 @@ fn cs_history(rng: &mut Rng, len: usize) -> String {
                     0 | 1 => ops.push(format!("N{}", fmt_cs_peers(&peers))),
                     // the schema changes: keyspace dropped / no longer tablet-based / a table dropped / a table becomes a view
                     2 | 3 | 4 => {
-                        let cfg = *rng.pick(&["x", "-", "t0/", "t1/", "/", "t0/t1", "t1/t0", "/t0+t1", "t0+t1/"]);
+                        let cfg = *rng.pick(&["x", "-", "e", "e", "e", "t0/", "t1/", "/", "t0/t1", "t1/t0", "/t0+t1", "t0+t1/"]);
                         ops.push(format!("P{}!{}", fmt_cs_peers(&peers), cfg));
                     }
                     _ => ops.push(format!("P{}", fmt_cs_peers(&peers))),
@@ -1679,7 +1688,9 @@ fn cs_history(rng: &mut Rng, len: usize) -> String {
     }
     ops.push(scan_op(rng, 0, last_range));
     ops.push(scan_op(rng, 1, last_range));
-    format!("cs {}", ops.join(";"))
+    // half of the histories with an accepting host filter and enabled nodes (the accepted-node arms of
+    // calculate_new_topology: reuse, inherit_with_ip_changed, Node::new)
+    format!("{} {}", if rng.bool() { "cs" } else { "csa" }, ops.join(";"))
 }
 
 pub fn generate(rng: &mut Rng, tier: Tier, emit: &mut dyn FnMut(String)) {
